@@ -117,7 +117,8 @@ def run_check(prop, tier, seed):
     workdir = os.path.join(env.VERIF, '.work', f'{prop}-{tier}-{os.getpid()}')
     shutil.rmtree(workdir, ignore_errors=True)
     os.makedirs(workdir)
-    evidence_path = os.path.join(env.VERIF, 'evidence', f'{prop}.json')
+    # runs against a scratch tree (validation of the monitors, VMON_REPO) never touch the evidence of /repo itself
+    evidence_path = os.path.join(env.VERIF, 'evidence' if env.REPO == '/repo' else os.path.join('.work', 'evidence_scratch'), f'{prop}.json')
     os.makedirs(os.path.dirname(evidence_path), exist_ok=True)
     try:
         results, problems = run_shards(prop, tier, seed, nshards, workdir)
